@@ -899,7 +899,8 @@ func isModelWidth(fn *ssa.Function, v ssa.Value, depth int) bool {
 			return c.Call.StaticCallee() == fn || (c.Call.StaticCallee() != nil && isGeneratorFunc(c.Call.StaticCallee()) && isInt(x.Type()))
 		}
 	case *ssa.Call:
-		return x.Call.StaticCallee() == fn
+		g := x.Call.StaticCallee()
+		return g == fn || (g != nil && isGeneratorFunc(g) && isInt(x.Type()))
 	case *ssa.BinOp:
 		return isModelWidth(fn, x.X, depth+1) || isModelWidth(fn, x.Y, depth+1)
 	case *ssa.Phi:
@@ -1135,4 +1136,155 @@ func sortedStringKeys2(m map[string]string) []string {
 	}
 	sort.Strings(out)
 	return out
+}
+
+// */match-table-read-from-the-field: the pairs of a match field are read from the match field.
+//
+// Packet.MatchFields is an index from the *key field's name* to a pair list, filled by the visitor as it meets match fields. Two
+// match fields of one packet may switch on the same key field (`match Kind as Request {..}, match Kind as Reply {..}`): the index
+// keeps the list of the one declared last. It answers "is this field the key of some match" correctly, but whoever takes a pair
+// list out of it - to emit a factory, to validate the packets a table names, to order the dissectors a table calls - works on the
+// wrong table for every match field but the last of its key. Decided: unless every insert into the index is guarded by a membership
+// test whose already-present edge reports a diagnostic (two match fields on one key rejected), no routine uses the *value* of a
+// lookup in, or of a range over, Packet.MatchFields; presence tests (`_, ok :=`, `!= nil`, `len`) are not uses.
+func matchTableReadFromTheField(w *World, r *Report, prop string, inScope func(fn *ssa.Function) bool, why string) {
+	rule := prop + "/match-table-read-from-the-field"
+	isIndex := func(v ssa.Value) bool {
+		ld, ok := stripIdentity(v).(*ssa.UnOp)
+		if !ok || ld.Op != token.MUL {
+			return false
+		}
+		fa, ok := ld.X.(*ssa.FieldAddr)
+		if !ok {
+			return false
+		}
+		tn, f, _, _ := fieldOf(fa)
+		return tn == "Packet" && f == "MatchFields"
+	}
+	// is the index lossy? an insert into a map of pair lists in the parse phase without a guarding membership test
+	lossy := false
+	for _, fn := range parsePhaseFuncs(w) {
+		tests := membershipTests(fn)
+		forEachInstr(fn, func(b *ssa.BasicBlock, ins ssa.Instruction) {
+			mu, ok := ins.(*ssa.MapUpdate)
+			if !ok {
+				return
+			}
+			mt, ok := mu.Map.Type().Underlying().(*types.Map)
+			if !ok {
+				return
+			}
+			sl, ok := mt.Elem().Underlying().(*types.Slice)
+			if !ok || modelTypeName(sl.Elem()) != "MatchPair" {
+				return
+			}
+			guarded := false
+			for _, t := range tests {
+				if !sameMapExpr(t.lookup.X, mu.Map) || !sameKey(t.lookup.Index, mu.Key) || !edgeDominates(t.branch, 1-t.presentSucc, b) {
+					continue
+				}
+				for _, db := range w.diagnosticBlocks(fn) {
+					if edgeDominates(t.branch, t.presentSucc, db) {
+						guarded = true
+					}
+				}
+			}
+			if !guarded {
+				lossy = true
+			}
+		})
+	}
+	if !lossy {
+		r.pass(rule, "the per-key index of match tables keeps every table", "", "every insert is guarded by a membership test that reports the second match field on a key")
+		return
+	}
+	valueUsed := func(v ssa.Value) bool {
+		if v.Referrers() == nil {
+			return false
+		}
+		for _, ref := range *v.Referrers() {
+			switch x := ref.(type) {
+			case *ssa.DebugRef:
+			case *ssa.BinOp:
+				if isNilConst(x.X) || isNilConst(x.Y) {
+					continue
+				}
+				return true
+			case *ssa.Call:
+				if b, ok := x.Call.Value.(*ssa.Builtin); ok && (b.Name() == "len" || b.Name() == "cap") {
+					continue
+				}
+				return true
+			default:
+				return true
+			}
+		}
+		return false
+	}
+	seen := map[string]bool{}
+	n := 0
+	var fns []*ssa.Function
+	for _, fn := range w.srcFuncs {
+		if fn.Blocks != nil && w.isSubjectFunc(fn) && (inScope == nil || inScope(fn)) {
+			fns = append(fns, fn)
+		}
+	}
+	sortFuncsByName(fns)
+	for _, fn := range fns {
+		var at ssa.Instruction
+		forEachInstr(fn, func(_ *ssa.BasicBlock, ins ssa.Instruction) {
+			if at != nil {
+				return
+			}
+			switch x := ins.(type) {
+			case *ssa.Lookup:
+				if !isIndex(x.X) {
+					return
+				}
+				if !x.CommaOk {
+					if valueUsed(x) {
+						at = ins
+					}
+					return
+				}
+				for _, ref := range *x.Referrers() {
+					if ex, ok := ref.(*ssa.Extract); ok && ex.Index == 0 && valueUsed(ex) {
+						at = ins
+					}
+				}
+			case *ssa.Range:
+				if !isIndex(x.X) {
+					return
+				}
+				for _, ref := range *x.Referrers() {
+					nx, ok := ref.(*ssa.Next)
+					if !ok || nx.Referrers() == nil {
+						continue
+					}
+					for _, r2 := range *nx.Referrers() {
+						if ex, ok := r2.(*ssa.Extract); ok && ex.Index == 2 && valueUsed(ex) {
+							at = ins
+						}
+					}
+				}
+			}
+		})
+		owner := recvNamedCore(fn)
+		if owner == "" {
+			owner = fn.Pkg.Pkg.Name()
+		}
+		key := owner + ": the pairs of a match field are not taken from the per-key index Packet.MatchFields"
+		if at == nil {
+			continue
+		}
+		if seen[key] {
+			continue
+		}
+		seen[key] = true
+		n++
+		r.fail(rule, key, w.instrPos(at), why+" ("+fnKey(fn)+" uses a pair list looked up in Packet.MatchFields, which keeps one list per key field - the last one)")
+	}
+	if n == 0 {
+		r.pass(rule, "no routine takes a pair list out of the per-key index", "", "")
+	}
 }
